@@ -67,6 +67,12 @@ func (s *c18) Build(w *World) {
 		s.want = append(s.want, map[string][]string{})
 	}
 	n := 5 + t.Draw(35)
+	if t.Chance(250) {
+		// swarm: long bursts against slow subscribers, so that the publisher's command queue backs up
+		n = 40 + t.Draw(120)
+		w.Prof.Weights["hook"] = 1
+		w.Prof.Weights["api"] = 40
+	}
 	ev := 0
 	for i := 0; i < n; i++ {
 		topic := fmt.Sprintf("t%d", t.Draw(ntop))
